@@ -576,7 +576,7 @@ class C14(Prop):
         "same_source_twice_is_usage_error", "set_after_toggle_by_same_source_is_usage_error",
         "set_option_spec", "toggle_switches_others_off",
         "abbrev_full_name_resolves", "abbrev_resolves_iff_unique", "abbrev_ambiguous_iff_two", "abbrev_unknown_iff",
-        "dashdash_ends_options", "first_nonoption_ends_options", "plus_word_is_argument", "args_returned_in_order", "getArg_is_argv_from_optind",
+        "dashdash_ends_options", "first_nonoption_ends_options", "options_end_where_documented", "plus_word_is_argument", "args_returned_in_order", "getArg_is_argv_from_optind",
         "cmdline_ends_cleanly", "spoof_ends_cleanly", "environment_ends_cleanly", "configfile_ends_cleanly",
         "rejected_setting_changes_nothing", "unknown_long_option", "ambiguous_long_option", "argument_to_flag",
         "missing_argument_long", "unknown_short_option", "verifyConfig_ok_iff_consistent",
@@ -669,10 +669,32 @@ class C14(Prop):
             return self._realtok.sub(norm, line)
         return line
 
+    def compare(self, ctx, case, impl_out, model_out):
+        """exact comparison, except: (1) a success line is compared by status only; (2) after a command line that
+        ended in a usage error the position of `optind` is not documented, so ArgNumber/GetArg are not compared"""
+        n = max(len(impl_out), len(model_out))
+        cmd_failed = False
+        for i in range(n):
+            a = self.canonical(impl_out[i]) if i < len(impl_out) else "<missing>"
+            b = self.canonical(model_out[i]) if i < len(model_out) else "<missing>"
+            op = case["ops"][i].split()[0] if i < len(case["ops"]) else ""
+            if op in ("cmdline", "spoof"):
+                cmd_failed = not a.startswith("ok")
+            if op == "dump" and cmd_failed:
+                a, b = re.sub(r"argn=\S+ args=\S*", "argn=* args=*", a), re.sub(r"argn=\S+ args=\S*", "argn=* args=*", b)
+            if a.startswith("ok ") and b.startswith("ok ") and op in ("cmdline", "spoof", "env", "cfg", "verify"):
+                continue
+            if a != b:
+                return (i, a, b)
+        return None
+
     # ------------------------------------------------------------------ monitors (on implementation output only)
     def monitor(self, ctx, case, out):
+        cmd_failed = False
         for op, l in zip(case["ops"], out):
             w = op.split()[0]
+            if w in ("cmdline", "spoof"):
+                cmd_failed = not l.startswith("ok")
             if l.startswith(("fault", "atexit")):
                 continue                      # reported by the engine as a fault
             if w in ("cmdline", "spoof", "env", "cfg", "verify"):
@@ -684,18 +706,18 @@ class C14(Prop):
             elif w == "create" and l != "ok":
                 return Failure("monitor", "Create failed on a well-formed table: %r" % l)
             elif w == "dump":
-                f = self.check_dump(case, l)
+                f = self.check_dump(case, l, cmd_failed)
                 if f:
                     return Failure("monitor", f)
         return None
 
-    def check_dump(self, case, l):
+    def check_dump(self, case, l, cmd_failed=False):
         m = re.match(r"ok argn=(-?\d+) args=(\S*) opts=(\S*)$", l)
         if not m:
             return "malformed dump line %r" % l[:200]
         argn = int(m.group(1))
         args = m.group(2).split(",") if m.group(2) else []
-        if argn >= 0 and (len(args) != argn + 1 or args[-1] != "~" or any(a == "~" for a in args[:-1])):
+        if not cmd_failed and argn >= 0 and (len(args) != argn + 1 or args[-1] != "~" or any(a == "~" for a in args[:-1])):
             return "GetArg inconsistent with ArgNumber=%d: %r" % (argn, args)
         types = [int(dict(x.split("=", 1) for x in o.split()[1:])["type"]) for o in case["ops"] if o.startswith("opt ")]
         defs = [dict(x.split("=", 1) for x in o.split()[1:])["def"] for o in case["ops"] if o.startswith("opt ")]
